@@ -352,10 +352,28 @@ def step (st : St) (line : String) : St × String :=
           match unhex h with
           | some b =>
             match TlvSchema.decodeNamed st.sname b with
-            | some (some slots) => if out = "ok:" ++ " ".intercalate slots then (st, "ok") else (st, s!"DIS ok:{" ".intercalate slots}")
+            | some (some text) => if out = "ok:" ++ text then (st, "ok") else (st, s!"DIS ok:{text.take 300}")
             | some none => if out.startsWith "e:" then (st, "ok") else (st, "DIS e:*")
             | none => (st, "ok")
           | none => (st, "BAD hex")
+      else if name = "reenc" then
+        -- real `from_tlv` followed by real `to_tlv` (structures whose fields cannot be observed directly)
+        let h := args.getD 0 "-"
+        match unhex h with
+        | none => (st, "BAD hex")
+        | some b =>
+          if (st.encoded.find? (fun (x, _) => x = h)).isSome ∧ out ≠ "ok:" ++ h then
+            (st, s!"ORA reenc: decoding and re-encoding a derived structure does not reproduce the encoder's bytes (got {out.take 120})")
+          else
+            match TlvSchema.named st.sname with
+            | none => (st, "ok")
+            | some ty =>
+              match TlvSchema.decodeStruct ty b with
+              | .ok v =>
+                match TlvSchema.encodeStruct ty v with
+                | some b' => if out = "ok:" ++ hex b' then (st, "ok") else (st, s!"DIS ok:{(hex b').take 300}")
+                | none => (st, "DIS model cannot re-encode")
+              | _ => if out.startsWith "e:" then (st, "ok") else (st, "DIS e:*")
       else (st, "BAD op")
     else (st, "BAD kind")
 
